@@ -6,6 +6,8 @@
   history agree with each other — return codes, numbers (handles, lengths, states) and returned bytes.
 -/
 import Shm.Model.Machine
+import Shm.Gen.ClassTable
+import Shm.Gen.DbKinds
 namespace Shm.C20
 open Shm
 
@@ -28,5 +30,31 @@ theorem C20_responses_length (s : State) (cs : List AnyCall) : (responses s cs).
   induction cs generalizing s with
   | nil => rfl
   | cons c cs ih => simp [responses, ih]
+
+/-! ### the SQLite object store knows every attribute the PKCS#11 layer stores (tables regenerated from the source on every run) -/
+
+/-- kind of a default value as the SQLite store's `attributeKind` names it: 1 = akBoolean, 2 = akInteger, 3 = akBinary, 4 = akAttrMap, 5 = akMechSet -/
+def kindOf : AVal → Option Nat
+  | .bool _ => some 1
+  | .ulong _ => some 2
+  | .bytes _ _ => some 3
+  | .amap _ => some 4
+  | .mechs _ => some 5
+  | .unk => none
+
+def dbKnows (a : AttrDesc) : Bool := (Gen.dbKinds.lookup a.ty).isSome
+
+def dbKindAgrees (a : AttrDesc) : Bool :=
+  match a.dflt.bind kindOf, Gen.dbKinds.lookup a.ty with
+  | some k, some k' => k == k'
+  | _, _ => true
+
+/-- **every attribute of every object class has a storage kind in the SQLite backend** (an attribute without one is written as nothing and reads back empty after a
+    reload: the defect repaired for CKA_DESTROYABLE in 3a6027d and for CKA_PUBLIC_KEY_INFO in the last fix) — checked against `attributeKind()` of DBObject.cpp and
+    the class tables of P11Objects.cpp as they are in the tree NOW -/
+theorem T20_db_knows_every_attribute : (Gen.classTable.all fun cd => cd.attrs.all dbKnows) = true := by decide +kernel
+
+/-- … and where the class table gives a default value, the SQLite kind is the kind of that value (a Boolean is not stored as a byte string, and so on) -/
+theorem T20_db_kinds_agree : (Gen.classTable.all fun cd => cd.attrs.all dbKindAgrees) = true := by decide +kernel
 
 end Shm.C20
